@@ -141,22 +141,19 @@ def _try_join(options):
             elif issubclass(result_type, BitVector) and issubclass(
                 option_type, BitVector
             ):
-                r_signed = isinstance(result_type, Signed)
-                r_unsigned = isinstance(result_type, Unsigned)
+                if result_type.width != option_type.width:
+                    # branches of different width are not joined, each one
+                    # is converted to the target of the expression on its own
+                    return None
 
-                o_signed = isinstance(option_type, Signed)
-                o_unsigned = isinstance(option_type, Unsigned)
+                r_numeric = issubclass(result_type, (Signed, Unsigned))
+                o_numeric = issubclass(option_type, (Signed, Unsigned))
 
-                if (r_signed and o_signed) or (r_unsigned and o_unsigned):
-                    result_type = (
-                        result_type
-                        if result_type.width >= option_type.width
-                        else option_type
-                    )
-                elif not (r_unsigned or r_signed or o_unsigned or o_signed):
-                    if result_type.width != option_type.width:
-                        # incompatible branches, return early
-                        return None
+                if r_numeric and not o_numeric:
+                    # a plain BitVector has no numeric value: the joined value
+                    # is a BitVector too (independent of the branch order), so it
+                    # is never resized like the Signed/Unsigned branch would be
+                    result_type = BitVector[result_type.width]
 
     if result_type is None:
         return None
